@@ -25,6 +25,9 @@ def DecPic.new (hdr : PicHdr) (fmt : SrcFmt) : Option DecPic :=
     some { hdr := hdr, fmt := fmt, luma := Array.replicate (w * h) 0, cb := Array.replicate (cw * ch) 0,
            cr := Array.replicate (cw * ch) 0, chromaSpr := cw }
 
+/-- the plane sizes `DecodedPicture::new` allocates for a `w x h` picture: luma, each chroma plane, chroma samples per row -/
+def planeSizes (w h : Nat) : Nat × Nat × Nat := (w * h, ((w + 1) / 2) * ((h + 1) / 2), (w + 1) / 2)
+
 /-- `read_sample`: coordinates clamped to the plane -/
 def readSample (px : Array Nat) (spr rows : Nat) (x y : Int) : Out Nat :=
   let cx : Int := if x < 0 then 0 else if x > ((spr - 1 : Nat) : Int) then ((spr - 1 : Nat) : Int) else x
